@@ -375,8 +375,8 @@ func checkLedger(prop, tier string) *Report {
 		}
 	}
 	x.RunOn(worlds)
-	if prop == "C01" {
-		// ---- wiring phase: "in every reachable state" of a chain that mounts the middleware — also of one whose application wired
+	{
+		// ---- wiring phase (C02: a success on a partially wired module is judged like any other — the whole-ledger delta): "in every reachable state" of a chain that mounts the middleware — also of one whose application wired
 		// only some of the controller groups (an adapter / action / forwarding group forgotten). Whatever such a module answers,
 		// an orbiter-addressed packet is either refused or leaves nothing on the account; it never falls through to the plain
 		// ICS-20 credit (seed C01h). The seven partial wirings receive the whole quick probe alphabet on the initial state.
@@ -407,7 +407,7 @@ func checkLedger(prop, tier string) *Report {
 			r := RecvOn(stacks[widx[w]][i/len(quickProbes)], b, pr.Pkt)
 			rep.Count("probe_transitions", 1)
 			rep.Count("wiring_probes", 1)
-			check(w, []string{"partial wiring"}, w.Ctx, w.Snapshot(w.Ctx), label, fmt.Sprintf("wiring(adapters=%v,actions=%v,forwardings=%v) %s", wr.ad, wr.ac, wr.fw, pr.Group), pr.Pkt, nil, r, b,
+			check(w, []string{"partial wiring"}, w.Ctx, w.Snapshot(w.Ctx), label, fmt.Sprintf("wiring(adapters=%v,actions=%v,forwardings=%v) %s", wr.ad, wr.ac, wr.fw, pr.Group), pr.Pkt, pr.Spec, r, b,
 				[]Op{{Label: label, Pkt: &pr.Pkt}})
 		})
 		rep.Extra["partial_wirings"] = len(wirings)
